@@ -12,6 +12,8 @@ def seeded():
     L = ["| id | what was changed | needs | result on the final tree | notes |", "|----|------------------|-------|--------------------------|-------|"]
     stats = {}
     for d in sorted(glob.glob(os.path.join(ROOT, "seeded", "*"))):
+        if not os.path.exists(os.path.join(d, "meta.json")):
+            continue
         m = json.load(open(os.path.join(d, "meta.json")))
         res = m.get("final_result") or ("detected" if m.get("detected_by_quick_check") else "NOT detected")
         stats[res] = stats.get(res, 0) + 1
@@ -54,5 +56,8 @@ def replace_block(text, tag, body):
 s = open(D).read()
 s = replace_block(s, "SEEDED", seeded())
 s = replace_block(s, "STATUS", status())
+if "<!-- BEGIN GENERATED REWRITES -->" in s:
+    rw = subprocess.run(["python3", os.path.join(ROOT, "tools", "rewrites_table.py")], capture_output=True, text=True).stdout
+    s = replace_block(s, "REWRITES", rw.strip())
 open(D, "w").write(s)
 print("DESIGN.md generated blocks updated")
